@@ -8,6 +8,7 @@ kept / emptied / rejected according to the mode; expansion terminates.
 import CaddyModel.C18.Lemmas
 import CaddyModel.C18.CostLemmas
 import CaddyModel.C18.Http
+import CaddyModel.C18.Preserve
 import CaddyModel.Gen.Consts
 
 namespace CaddyModel.C18
@@ -84,6 +85,25 @@ theorem unknown_never_substituted_when_kept (inp : Bytes) (known : Bytes → Boo
   rcases substituted_only_if_known_or_emptied inp known false eu key h with h | ⟨h, _⟩
   · exact h
   · cases h
+
+/-- only `b` is known -/
+def exEnv0 : Env := fun k => if k = [98] then some [88] else none
+
+/-- **text outside placeholders is preserved modulo escapes.** Whenever the scan runs to the end
+    (no "too many unclosed" / rejected unknown key), the concatenated source of its segments — literals
+    as they are, each substituted placeholder as `{key}` — is the input with some backslashes deleted,
+    each of which stood directly in front of a brace. Nothing else is dropped, added or reordered;
+    in particular unknown placeholders that are kept stay in the text exactly as written. -/
+theorem outside_preserved_mod_escape (inp : Bytes) (known : Bytes → Bool) (ue eu : Bool)
+    (h : ∀ r, Seg.halt r ∉ segments inp known ue eu) :
+    EscDel inp (source (segments inp known ue eu)) := by
+  have := segLoop_source inp known ue eu (inp.length + 1) 0 0 0
+    ⟨Nat.le_refl 0, Nat.zero_le _, fun _ h => absurd h (Nat.lt_irrefl 0)⟩ h
+  simpa using this
+
+-- non-vacuity: "\{a}{b}" — the escaping backslash goes, `{b}` is substituted, `{a}` stays text
+example : segments [92, 123, 97, 125, 123, 98, 125] (dom exEnv0) false false
+    = [.lit [], .lit [123, 97, 125], .ph [98], .lit []] := by decide
 
 /-- **cost, the part that holds.** In every mode that does not keep unknown placeholders
     (`ReplaceAll`, `ReplaceFunc`, `ReplaceOrErr(_, true)`) the scanner visits at most
